@@ -121,6 +121,10 @@ func nodeConf(dir string, port int, fastSync bool) *viper.Viper {
 	return conf
 }
 
+var procStart = time.Now()
+
+func sayT(phase string) { say("T %s %d ms", phase, time.Since(procStart).Milliseconds()) }
+
 func say(f string, a ...any) {
 	fmt.Fprintf(os.Stdout, "C13 "+f+"\n", a...)
 }
@@ -209,15 +213,18 @@ func runSource(dir string) {
 		say("FATAL init %v", err)
 		os.Exit(3)
 	}
+	sayT("init")
 	node, err := core.NewNode(conf, dir, "evm")
 	if err != nil {
 		say("FATAL newnode %v", err)
 		os.Exit(3)
 	}
+	sayT("newnode")
 	if err := node.Start(); err != nil {
 		say("FATAL start %v", err)
 		os.Exit(3)
 	}
+	sayT("started")
 	app := node.Application.(*evm.EVMApp)
 	v1 := node.Angine.PrivValidator().GetPrivKey()
 	lastFed := int64(-1)
@@ -368,15 +375,18 @@ func runSync(dir string) {
 		say("FATAL genesis %v", err)
 		os.Exit(3)
 	}
+	sayT("init")
 	node, err := core.NewNode(conf, dir, "evm")
 	if err != nil {
 		say("FATAL newnode %v", err)
 		os.Exit(3)
 	}
+	sayT("newnode")
 	if err := node.Start(); err != nil {
 		say("FATAL start %v", err)
 		os.Exit(3)
 	}
+	sayT("started")
 	app := node.Application.(*evm.EVMApp)
 	say("LISTENING %d", port)
 	start := time.Now()
@@ -447,7 +457,8 @@ func freePort() int {
 func startChild(env ...string) (*childProc, error) {
 	cmd := exec.Command(os.Args[0], "-test.run", "^$")
 	cmd.Env = append(os.Environ(), env...)
-	cmd.Env = append(cmd.Env, "VERIF_EV_OUT=", "VERIF_REPLAY=")
+	// a node has dozens of busy goroutines; 16 shards x 2 nodes must not fight over the cores
+	cmd.Env = append(cmd.Env, "VERIF_EV_OUT=", "VERIF_REPLAY=", "GOMAXPROCS=4")
 	pr, pw := io.Pipe()
 	cmd.Stdout = pw
 	cmd.Stderr = pw
